@@ -19,7 +19,8 @@ import (
 type TT struct {
 	T  Term
 	Ty types.Type // may be nil for raw SMT-level values
-	P  *PtrV      // set when the expression denotes a tracked lvalue
+	P  *PtrV      // the expression is a pointer VALUE designating this tracked location
+	L  *PtrV      // the expression is an lvalue stored at this location
 }
 
 type SpecCtx struct {
@@ -155,8 +156,8 @@ func (c *SpecCtx) tr(e ast.Expr) TT {
 			}
 			return TT{T: app(SInt, "-", x.T), Ty: x.Ty}
 		case token.AND:
-			if x.P != nil {
-				return TT{P: x.P, Ty: types.NewPointer(x.Ty), T: c.ptrTerm(x.P)}
+			if x.L != nil {
+				return TT{P: x.L, Ty: types.NewPointer(x.Ty), T: c.ptrTerm(x.L)}
 			}
 		}
 	case *ast.StarExpr:
@@ -221,7 +222,7 @@ func (c *SpecCtx) ptrTerm(p *PtrV) Term {
 
 func (c *SpecCtx) deref(x TT) TT {
 	if x.P != nil {
-		return TT{T: c.ex.load(c.st, x.P), Ty: c.ex.pointeeType(x.P), P: nil}
+		return TT{T: c.ex.load(c.st, x.P), Ty: c.ex.pointeeType(x.P), L: x.P}
 	}
 	pt, ok := types.Unalias(x.Ty).Underlying().(*types.Pointer)
 	if !ok {
@@ -322,7 +323,7 @@ func (c *SpecCtx) local(name string) (TT, bool) {
 			v := fr.freeVar[i]
 			// captured variables are addresses: denote the content
 			if p, ok := v.(*PtrV); ok {
-				return TT{T: c.ex.loadAny(c.st, p), Ty: c.ex.pointeeType(p), P: p}, true
+				return TT{T: c.ex.loadAny(c.st, p), Ty: c.ex.pointeeType(p), L: p}, true
 			}
 			return c.fromValue(v, fv.Type()), true
 		}
@@ -336,7 +337,7 @@ func (c *SpecCtx) local(name string) (TT, bool) {
 					continue
 				}
 				p := v.(*PtrV)
-				return TT{T: c.ex.loadAny(c.st, p), Ty: c.ex.pointeeType(p), P: p}, true
+				return TT{T: c.ex.loadAny(c.st, p), Ty: c.ex.pointeeType(p), L: p}, true
 			}
 		}
 	}
@@ -625,6 +626,11 @@ func (c *SpecCtx) tryIdent(name string) (tt TT, ok bool) {
 
 func (c *SpecCtx) findPackage(name string) *types.Package {
 	for _, p := range c.w().prog.AllPackages() {
+		if p.Pkg.Name() == name && strings.HasPrefix(p.Pkg.Path(), modPath) {
+			return p.Pkg
+		}
+	}
+	for _, p := range c.w().prog.AllPackages() {
 		if p.Pkg.Name() == name && (strings.HasPrefix(p.Pkg.Path(), modPath) || !strings.Contains(p.Pkg.Path(), "/") || p.Pkg.Path() == "gopkg.in/yaml.v2" || strings.HasSuffix(p.Pkg.Path(), "/"+name)) {
 			if strings.Contains(p.Pkg.Path(), "internal") || strings.Contains(p.Pkg.Path(), "vendor") {
 				continue
@@ -653,25 +659,25 @@ func (c *SpecCtx) field(x TT, name string) TT {
 		}
 		if v, ok := obj.(*types.Var); ok && v.IsField() {
 			var p *PtrV
-			if x.P != nil && (x.P.Cell != nil || x.P.Global != nil || x.P.IsElem || len(x.P.Path) > 0 || x.T.IsZero()) {
+			if x.P != nil {
 				p = &PtrV{}
 				*p = *x.P
 				p.Path = append(append([]int(nil), x.P.Path...), path...)
 			} else {
 				p = &PtrV{Base: x.T, Root: pt.Elem(), Path: path}
 			}
-			return TT{T: c.ex.load(c.st, p), Ty: v.Type(), P: p}
+			return TT{T: c.ex.load(c.st, p), Ty: v.Type(), L: p}
 		}
 		c.failf("no field %s in %s", name, pt.Elem())
 	}
 	if _, ok := t.Underlying().(*types.Struct); ok {
 		obj, path := lookupFieldAnyPkg(t, name)
 		if v, ok := obj.(*types.Var); ok && v.IsField() {
-			if x.P != nil {
+			if x.L != nil {
 				p := &PtrV{}
-				*p = *x.P
-				p.Path = append(append([]int(nil), x.P.Path...), path...)
-				return TT{T: c.ex.load(c.st, p), Ty: v.Type(), P: p}
+				*p = *x.L
+				p.Path = append(append([]int(nil), x.L.Path...), path...)
+				return TT{T: c.ex.load(c.st, p), Ty: v.Type(), L: p}
 			}
 			tm, ty := c.ex.loadPath(x.T, t, path)
 			return TT{T: tm, Ty: ty}
@@ -723,7 +729,7 @@ func (c *SpecCtx) index(e *ast.IndexExpr) TT {
 		case *types.Slice:
 			es := c.w().sortOf(t.Elem(), c.ex.d)
 			p := &PtrV{IsElem: true, Slc: x.T, Idx: i.T, Root: t.Elem()}
-			return TT{T: c.ex.slcElem(c.st, x.T, i.T, es), Ty: t.Elem(), P: p}
+			return TT{T: c.ex.slcElem(c.st, x.T, i.T, es), Ty: t.Elem(), L: p}
 		case *types.Map:
 			if i.T.Sort != c.w().sortOf(t.Key(), c.ex.d) && i.Ty != nil {
 				i = TT{T: c.w().box(defaultType(i.Ty), i.T, c.ex.d)}
